@@ -41,7 +41,10 @@ ASSUMPTIONS = [
 
 MODS = ["si", "us", "energy", "astronomical", "metric", "iec"]
 OPS = ["mul", "div", "pow", "root", "ratio", "str", "fmt", "repr", "pretty", "html", "parse", "conv", "cmp", "add",
-       "pickle", "json", "cli", "define", "numer", "denom", "prefix", "qpretty", "unprefixed", "convswap", "powconv", "powprodconv"]
+       "pickle", "json", "cli", "define", "numer", "denom", "prefix", "qpretty", "unprefixed", "convswap", "powconv", "powprodconv", "helper"]
+# shipped helper modules an application may import at any time (strategies for hypothesis, the
+# pytest plugin, further unit modules): importing them builds units too
+HELPERS = ["hypothesis", "pytest", "systems", "geometry", "physics", "computing", "acoustics", "electronics", "music", "natural", "fff", "apocrypha", "eu", "iso", "troy", "avoirdupois"]
 
 
 def setup(tier):
@@ -325,6 +328,11 @@ def run_case(case) -> core.Outcome:
                 try:
                     json.loads(json.dumps(2 * a, cls=jsonmod.MeasuredJSONEncoder), cls=jsonmod.MeasuredJSONDecoder)
                 except Exception:
+                    pass
+            elif op == "helper":
+                try:
+                    r.w.load(HELPERS[i % len(HELPERS)])
+                except ImportError:
                     pass
             elif op == "cli":
                 buf = io.StringIO()
